@@ -299,6 +299,7 @@ type jEntry struct {
 	RemoteAppMids []string
 	RemoteAllMids []string
 	RemoteSecs    []jSec // all sections of that remote description
+	PendingMids   []string // mids of the pending remote description, if any
 	Err           string
 }
 
@@ -383,6 +384,9 @@ func jsepRun(c jCase) *jLog {
 		lastCreated[i] = map[string]string{}
 	}
 	view := make([][]jSec, n) // per peer: sections of the last remote description
+	// the offer (text) each peer's last created answer responds to: an answer is
+	// delivered only to answer the offer it was created for
+	answerBasis := make([]string, n)
 	for _, op := range c.Ops {
 		if op.P < 0 || op.P >= n {
 			continue
@@ -405,6 +409,13 @@ func jsepRun(c jCase) *jLog {
 			_, err = pc.CreateDataChannel("d", nil)
 		case "offer", "answer":
 			e.RemoteAppMids, e.RemoteAllMids, e.RemoteSecs = jRemoteMids(pc, op.Op == "offer")
+			if pend := pc.PendingRemoteDescription(); pend != nil {
+				if pd, perr := jProjectRemote(pend.SDP); perr == nil {
+					for _, x := range pd.Secs {
+						e.PendingMids = append(e.PendingMids, x.Mid)
+					}
+				}
+			}
 			var sd webrtc.SessionDescription
 			if op.Op == "offer" {
 				sd, err = pc.CreateOffer(nil)
@@ -414,6 +425,12 @@ func jsepRun(c jCase) *jLog {
 			if err == nil {
 				e.Text = sd.SDP
 				lastCreated[op.P][op.Op] = sd.SDP
+				if op.Op == "answer" {
+					answerBasis[op.P] = ""
+					if pend := pc.PendingRemoteDescription(); pend != nil {
+						answerBasis[op.P] = pend.SDP
+					}
+				}
 				ld, perr := jProjectLocal(sd.SDP)
 				if perr != nil {
 					e.ParseEr = perr.Error()
@@ -455,6 +472,9 @@ func jsepRun(c jCase) *jLog {
 			text := ""
 			if other >= 0 && other < n {
 				text = lastCreated[other][op.Ty]
+			}
+			if text != "" && op.Ty == "answer" && answerBasis[other] != lastCreated[op.P]["offer"] {
+				text = "" // a stale answer (to an older offer): a real remote would not send it
 			}
 			if text == "" {
 				e.InModel = false
